@@ -3,7 +3,7 @@ import LyModel.Yin.LemmasStmt
 set_option linter.unusedSimpArgs false
 set_option linter.unusedVariables false
 namespace LyModel.Yin
-open LyModel LyModel.Utf8 LyModel.Generated LyModel.XmlText
+open LyModel LyModel.Utf8 LyModel.Generated LyModel.XmlText LyModel.XmlLex
 
 theorem splitColon_eq : ∀ (name p n : Bytes), splitColon name = some (p, n) → name = p ++ 58 :: n
   | [], p, n, h => by simp [splitColon] at h
@@ -83,7 +83,7 @@ theorem printStmt_shape (ns : List XNs) (parent : YKw) (fmt : Bool) (level : Nat
 end LyModel.Yin
 
 namespace LyModel.Yin
-open LyModel LyModel.Utf8 LyModel.Generated LyModel.XmlText
+open LyModel LyModel.Utf8 LyModel.Generated LyModel.XmlText LyModel.XmlLex
 
 /-! ## white-space content between tags -/
 theorem yangText_spaces : ∀ m, YangText (spaces m)
